@@ -52,6 +52,8 @@ ClientOk(e, x) ==
                                    \o RefPath(RefPath(e.base, x.t.href), e.chain[1].loc) \o cCRLF       \* the redirect the server actually sent
          /\ Len(e.chain) <= 2
     ELSE e.req = Follow(P, x.t, e.base, e.q) /\ Len(e.chain) = 0
+\* gamma wrote as many bytes as the model's length classes say (binds BlockBytes to the concrete request)
+BytesOk(e) == e.nbytes = ReqBytes(e.req)
 
 LastRq(e) == IF Len(e.chain) = 0 THEN e.req ELSE Rq(e.chain[Len(e.chain)].line, "", e.req.tls)
 
@@ -96,7 +98,7 @@ DoFollow(e) ==
     ELSE LET x == ListOf(e.base).entries[e.i] IN
          /\ pend' = pend \ {<<e.base, e.i>>}
          /\ UNCHANGED lists
-         /\ verdict' = IF ~ClientOk(e, x) THEN "ClientMismatch" ELSE ClosureClause(e, x)
+         /\ verdict' = IF ~ClientOk(e, x) \/ ~BytesOk(e) THEN "ClientMismatch" ELSE ClosureClause(e, x)
          /\ (IF ResponseAsModel(e) THEN TRUE ELSE RecordDrift(tid, l, "response differs from Serve(case, Parse(req))"))
 
 DoEnd(e) == /\ verdict' = IF e.truncated THEN "unmatched" ELSE IF pend # {} THEN "NotCrawled" ELSE "ok"
